@@ -71,20 +71,9 @@ class _RefMemo(object):
         self.obj = obj
 
 
-class _RefGet(object):
-    def __init__(self, key):
-        self.key = key
-
-
-class _RefMemoDict(dict):
-    def __missing__(self, key):
-        return (_RefGet(key), None)
-
-
 class _RefPickler(dill.Pickler):
     def __init__(self, file, **kwargs):
         dill.Pickler.__init__(self, file, **kwargs)
-        self.memo = _RefMemoDict()
         self.lazywrites = []
         self.realwrite = file.write
         self.write = self.lazywrite
@@ -94,11 +83,6 @@ class _RefPickler(dill.Pickler):
             self.lazywrites.append(args)
         else:
             self.realwrite(*args)
-
-    def get(self, i):
-        if isinstance(i, _RefGet):
-            return i
-        return dill.Pickler.get(self, i)
 
     def save(self, obj, save_persistent_id=None):
         if save_persistent_id is not None:
@@ -137,10 +121,6 @@ class _RefPickler(dill.Pickler):
                         )
                     else:
                         self.realmemoize(lw.obj)
-                elif isinstance(lw[0], _RefGet):
-                    self.realwrite(
-                        dill.Pickler.get(self, dict.__getitem__(self.memo, lw[0].key)[0])
-                    )
                 else:
                     self.realwrite(*lw)
         self.realwrite(pickle.STOP)
